@@ -27,6 +27,7 @@ from scipy.special import factorial
 import scipy.integrate
 
 from thewalrus.symplectic import rotation as _R
+from thewalrus.symplectic import xpxp_to_xxpp as _xpxp_to_xxpp
 from thewalrus.symplectic import xpxp_to_xxpp
 
 import thewalrus.quantum as twq
@@ -1775,8 +1776,13 @@ class BaseBosonicState(BaseState):
 
         rho = 0
         for i in range(self.num_weights):
+            # the bosonic data are in xpxp ordering, thewalrus expects xxpp
             rho += weights[i] * twq.density_matrix(
-                mus[i], covs[i], hbar=self._hbar, normalize=False, cutoff=cutoff
+                _xpxp_to_xxpp(mus[i]),
+                _xpxp_to_xxpp(covs[i]),
+                hbar=self._hbar,
+                normalize=False,
+                cutoff=cutoff,
             )
         return rho
 
@@ -1896,8 +1902,9 @@ class BaseBosonicState(BaseState):
 
         prob = 0
         for i in range(self.num_weights):
+            # the bosonic data are in xpxp ordering, thewalrus expects xxpp
             prob += self._weights[i] * twq.density_matrix_element(
-                self._mus[i], self._covs[i], n, n, hbar=self._hbar
+                _xpxp_to_xxpp(self._mus[i]), _xpxp_to_xxpp(self._covs[i]), n, n, hbar=self._hbar
             )
         return prob.real
 
